@@ -410,3 +410,33 @@ impl<'gc> Cloner<'gc> {
             r is Ok ==> fields_ok(*final(new)),
     { unimplemented!() }
 }
+
+// ---- partial applications: a callable (closure or extern function) plus argument values
+pub enum Callable { Closure(GcPtr<ClosureData>), Extern(GcPtr<ExternFunction>) }
+pub open spec fn callable_fresh(c: Callable) -> bool {
+    match c { Callable::Closure(p) => fresh(p), Callable::Extern(p) => fresh(p) }
+}
+pub uninterp spec fn app_callable(p: GcPtr<PartialApplicationData>) -> Callable;
+// `&data.function` (field read through the GcPtr)
+#[verifier::external_body]
+pub fn app_function(p: &GcPtr<PartialApplicationData>) -> (r: &Callable) ensures *r == app_callable(*p) { unimplemented!() }
+impl<'gc> Cloner<'gc> {
+    // `self.deep_clone_ptr(&data, |gc, data| { gc.alloc(PartialApplicationDataDef(function, &data.args)) .. })`: a new object
+    // built around the GIVEN callable (ASSUMED, like the other instances)
+    #[verifier::external_body]
+    pub fn deep_clone_ptr_app(&mut self, p: &GcPtr<PartialApplicationData>, function: Callable) -> (r: Result<Result<ValueRepr, GcPtr<PartialApplicationData>>, Error>)
+        ensures
+            final(self).receiver_generation == old(self).receiver_generation, visited_kept(old(self).visited@, final(self).visited@),
+            r is Ok && r->Ok_0 is Ok ==> r->Ok_0->Ok_0 is PartialApplication && fresh(r->Ok_0->Ok_0->PartialApplication_0)
+                && fields_ok(r->Ok_0->Ok_0->PartialApplication_0) && callable_fresh(app_callable(r->Ok_0->Ok_0->PartialApplication_0)),
+            r is Ok && r->Ok_0 is Err ==> fresh(r->Ok_0->Err_0) && app_callable(r->Ok_0->Err_0) == function,
+    { unimplemented!() }
+    // the field loop leaves the callable alone
+    #[verifier::external_body]
+    pub fn clone_args_with_deep_clone_inner(&mut self, new: &mut GcPtr<PartialApplicationData>, orig: &GcPtr<PartialApplicationData>) -> (r: Result<(), Error>)
+        ensures
+            final(self).receiver_generation == old(self).receiver_generation, visited_kept(old(self).visited@, final(self).visited@),
+            fresh(*final(new)) == fresh(*old(new)), app_callable(*final(new)) == app_callable(*old(new)),
+            r is Ok ==> fields_ok(*final(new)),
+    { unimplemented!() }
+}
